@@ -29,7 +29,12 @@ type c19Case struct {
 	Consumers int           `json:"consumers"`
 	Producers []c19Producer `json:"producers"`
 	WindowHit int           `json:"window_hit"` // the n-th arrival of a consumer at the yield point opens the window
-	Finale    string        `json:"finale"`     // none | close | reset | drain   (packet queue only)
+	Finale    string        `json:"finale"`     // none | close | reset | drain | shutdown  (packet queue only)
+	// timing (virtual): a poll consumer re-polls after RepollMs (a client's round trip); "after" producers are GapMs apart;
+	// the fake transport of the packet queue takes SendMs per Send call.
+	RepollMs int `json:"repoll_ms,omitempty"`
+	GapMs    int `json:"gap_ms,omitempty"`
+	SendMs   int `json:"send_ms,omitempty"`
 }
 
 const (
@@ -45,8 +50,9 @@ type c19Recv struct {
 // fake eio.Socket recording what pollAndSend hands to the transport.
 type c19Sock struct {
 	mu    sync.Mutex
-	start time.Time
-	got   []c19Recv
+	start     time.Time
+	got       []c19Recv
+	sendDelay time.Duration
 }
 
 func (s *c19Sock) ID() string                  { return "x" }
@@ -55,6 +61,9 @@ func (s *c19Sock) PingTimeout() time.Duration  { return 20 * time.Second }
 func (s *c19Sock) TransportName() string       { return "polling" }
 func (s *c19Sock) Close()                      {}
 func (s *c19Sock) Send(packets ...*parser.Packet) {
+	if s.sendDelay > 0 && len(packets) > 0 {
+		time.Sleep(s.sendDelay) // a slow transport: the sender goroutine is busy meanwhile
+	}
 	s.mu.Lock()
 	defer s.mu.Unlock()
 	for _, p := range packets {
@@ -91,12 +100,16 @@ func evalC19Queue(c c19Case) (f *Failure, windowUsed bool) {
 		added := map[int]time.Duration{} // packet id -> virtual time of hand-over
 		droppedUpTo := 0 // packets with id <= droppedUpTo were handed over before a reset and may have been dropped by it
 		nextID := 0
+		group := map[int]int{} // packet id -> add call it belongs to
+		groups := 0
 		mk := func(n int) []*parser.Packet {
 			mu.Lock()
 			defer mu.Unlock()
+			groups++
 			ps := make([]*parser.Packet, n)
 			for i := range ps {
 				nextID++
+				group[nextID] = groups
 				ps[i] = &parser.Packet{Type: parser.PacketTypeMessage, Data: []byte(fmt.Sprint(nextID))}
 				added[nextID] = time.Since(start)
 			}
@@ -105,7 +118,11 @@ func evalC19Queue(c c19Case) (f *Failure, windowUsed bool) {
 
 		var pollQ *polling.VerifPollQueue
 		var pktQ *sio.VerifPacketQueue
-		sock := &c19Sock{start: start}
+		sock := &c19Sock{start: start, sendDelay: time.Duration(c.SendMs) * time.Millisecond}
+		strict := map[int]bool{}     // packets handed over while a consumer was blocked in its wait: must be taken at once
+		waiting := 0                 // poll consumers currently between the yield point and the return of poll
+		mustDeliver := map[int]bool{} // packets handed over before an orderly shutdown began
+		shutdownFrom := 0
 		var add func(n int)
 		if c.Queue == "poll" {
 			pollQ = polling.VerifNewPollQueue()
@@ -169,7 +186,13 @@ func evalC19Queue(c c19Case) (f *Failure, windowUsed bool) {
 							return
 						default:
 						}
+						mu.Lock()
+						waiting++ // this consumer is inside poll (at the check, parked at the yield point, or blocked in its wait)
+						mu.Unlock()
 						ps := pollQ.Poll(45 * time.Second)
+						mu.Lock()
+						waiting--
+						mu.Unlock()
 						if len(ps) == 0 {
 							if n := pollQ.Len(); n > 0 {
 								mu.Lock()
@@ -178,6 +201,9 @@ func evalC19Queue(c c19Case) (f *Failure, windowUsed bool) {
 							}
 						}
 						sock.Send(ps...)
+						if c.RepollMs > 0 {
+							time.Sleep(time.Duration(c.RepollMs) * time.Millisecond) // the client's round trip before its next poll
+						}
 					}
 				}()
 			}
@@ -186,7 +212,21 @@ func evalC19Queue(c c19Case) (f *Failure, windowUsed bool) {
 			synctest.Wait()
 			for _, p := range c.Producers {
 				if p.Place == "after" {
+					synctest.Wait() // quiescent: a consumer counted as waiting is really blocked (or parked at the yield point)
+					mu.Lock()
+					pending := c.Queue == "poll" && waiting > 0
+					first := nextID + 1
+					mu.Unlock()
 					add(p.N)
+					if pending {
+						for id := first; id < first+p.N; id++ {
+							strict[id] = true
+						}
+					}
+					if c.GapMs > 0 {
+						time.Sleep(time.Duration(c.GapMs) * time.Millisecond)
+						synctest.Wait()
+					}
 				}
 			}
 			synctest.Wait()
@@ -198,6 +238,21 @@ func evalC19Queue(c c19Case) (f *Failure, windowUsed bool) {
 				mu.Unlock()
 				pktQ.Reset()
 				add(1) // the queue must keep working after a reset
+			case "shutdown":
+				// the orderly shutdown of serverConn.closePacketQueue / Manager.closePacketQueue, started while the sender may be busy:
+				// everything handed over before it began has to be transmitted
+				add(1)
+				mu.Lock()
+				for id := 1; id <= nextID; id++ {
+					mustDeliver[id] = true
+				}
+				shutdownFrom = nextID + 1 // whatever is handed over once the shutdown has begun may be discarded by close()
+				mu.Unlock()
+				go func() {
+					pktQ.WaitForDrain(2 * time.Minute)
+					pktQ.Close()
+				}()
+				time.Sleep(3 * time.Minute)
 			case "drain":
 				t0 := time.Now()
 				pktQ.WaitForDrain(5 * time.Second)
@@ -205,9 +260,10 @@ func evalC19Queue(c c19Case) (f *Failure, windowUsed bool) {
 					res = fail("drain-returns", fmt.Sprintf("waitForDrain(5s) returned after %v", d))
 				}
 			}
-			time.Sleep(2 * c19Bound)
+			time.Sleep(2*c19Bound + time.Duration(c.RepollMs*(c.WindowHit+3))*time.Millisecond)
 			synctest.Wait()
 		})
+		endOfObservation := time.Since(start)
 
 		// Oracle 1: every packet handed over (and not dropped by a later reset) was taken within the bound.
 		sock.mu.Lock()
@@ -216,7 +272,11 @@ func evalC19Queue(c c19Case) (f *Failure, windowUsed bool) {
 		seen := map[int]int{}
 		for _, r := range got {
 			seen[r.id]++
-			if at, ok := added[r.id]; ok && r.at-at >= c19Bound && res == nil {
+			if at, ok := added[r.id]; ok && strict[r.id] && r.at-at >= time.Millisecond && c.SendMs == 0 && res == nil {
+				res = fail("pending-poll-serves", fmt.Sprintf("packet %d was handed over at %v while a poll was pending (blocked in its wait) but was only returned at %v", r.id, at, r.at))
+			}
+			// a packet handed over while no poll is pending waits for the next poll to arrive (RepollMs), a slow transport delays the sender (SendMs)
+			if at, ok := added[r.id]; ok && r.at-at >= c19Bound+time.Duration(c.SendMs*4+c.RepollMs)*time.Millisecond && res == nil {
 				res = fail("hand-off-latency", fmt.Sprintf("packet %d handed over at %v reached the consumer at %v (bound %v)", r.id, at, r.at, c19Bound))
 			}
 		}
@@ -229,6 +289,15 @@ func evalC19Queue(c c19Case) (f *Failure, windowUsed bool) {
 		for _, id := range ids {
 			if seen[id] > 1 && res == nil {
 				res = fail("exactly-once", fmt.Sprintf("packet %d was delivered %d times", id, seen[id]))
+			}
+			if seen[id] == 0 && mustDeliver[id] && res == nil {
+				res = fail("shutdown-drains", fmt.Sprintf("packet %d was handed to the send path at %v, before the orderly shutdown (waitForDrain, close) began, and was never transmitted", id, added[id]))
+			}
+			if seen[id] == 0 && shutdownFrom > 0 && id >= shutdownFrom {
+				continue
+			}
+			if seen[id] == 0 && endOfObservation-added[id] < c19Bound+time.Duration(c.SendMs*4+c.RepollMs)*time.Millisecond {
+				continue // handed over too shortly before the end of the observation to judge
 			}
 			if seen[id] == 0 && res == nil {
 				if id <= droppedUpTo {
@@ -243,12 +312,16 @@ func evalC19Queue(c c19Case) (f *Failure, windowUsed bool) {
 		}
 		mu.Unlock()
 		// order: ids are assigned in hand-over order per add call; each consumer must see increasing ids
+		// (concurrent "window" producers may reach the queue in either order, so only the packets of one add call are ordered among themselves)
 		if c.Consumers == 1 && res == nil {
-			for i := 1; i < len(got); i++ {
-				if got[i].id < got[i-1].id {
-					res = fail("fifo", fmt.Sprintf("packet %d was taken after packet %d", got[i].id, got[i-1].id))
+			last := map[int]int{}
+			for _, r := range got {
+				g := group[r.id]
+				if r.id < last[g] {
+					res = fail("fifo", fmt.Sprintf("packet %d was taken after packet %d of the same add call", r.id, last[g]))
 					break
 				}
+				last[g] = r.id
 			}
 		}
 
@@ -317,6 +390,13 @@ func TestC19_QueueExhaustive(t *testing.T) {
 					for _, fin := range finales {
 						for hit := 1; hit <= 2; hit++ {
 							cases = append(cases, c19Case{Queue: q, Consumers: cons, Producers: ps, WindowHit: hit, Finale: fin})
+							if hit == 1 {
+								if q == "poll" {
+									cases = append(cases, c19Case{Queue: q, Consumers: cons, Producers: ps, WindowHit: hit, Finale: fin, RepollMs: 2000, GapMs: 1})
+								} else {
+									cases = append(cases, c19Case{Queue: q, Consumers: cons, Producers: ps, WindowHit: hit, Finale: "shutdown", SendMs: 50, GapMs: 20})
+								}
+							}
 						}
 					}
 				}
@@ -345,7 +425,7 @@ func TestC19_QueueRapid(t *testing.T) {
 	ev := NewEv(t, "C19", c19CheckQueue, "rapid: 1..2 consumers, 1..3 producers with 1..3 packets each placed before/in-window/after, window at the 1st..3rd wait, "+
 		"finale none/reset/drain; non-trivial = a producer ran while a consumer was parked at the yield point")
 	rapidGuard(t, "C19", c19CheckQueue)
-	runRapid(t, c19CheckQueue, tierN(1500, 60000), func(t *rapid.T) {
+	runRapid(t, c19CheckQueue, tierN(24000, 1200000), func(t *rapid.T) {
 		c := c19Case{
 			Queue:     rapid.SampledFrom([]string{"poll", "packet"}).Draw(t, "queue"),
 			Consumers: rapid.IntRange(1, 2).Draw(t, "consumers"),
@@ -360,8 +440,12 @@ func TestC19_QueueRapid(t *testing.T) {
 			})
 		}
 		if c.Queue == "packet" {
-			c.Finale = rapid.SampledFrom([]string{"none", "reset", "drain"}).Draw(t, "finale")
+			c.Finale = rapid.SampledFrom([]string{"none", "reset", "drain", "shutdown", "shutdown"}).Draw(t, "finale")
+			c.SendMs = rapid.SampledFrom([]int{0, 0, 50, 400}).Draw(t, "sendms")
+		} else {
+			c.RepollMs = rapid.SampledFrom([]int{0, 0, 10, 2000}).Draw(t, "repollms")
 		}
+		c.GapMs = rapid.SampledFrom([]int{0, 0, 1, 20}).Draw(t, "gapms")
 		f, used := evalC19Queue(c)
 		ev.Case(c, c19Nontrivial(c, used), c.class())
 		if used {
